@@ -57,6 +57,8 @@ pub mod c17;
 #[cfg(feature = "full")]
 pub mod c18;
 #[cfg(feature = "full")]
+pub mod c19;
+#[cfg(feature = "full")]
 pub mod c20;
 #[cfg(feature = "full")]
 pub mod util;
@@ -84,5 +86,5 @@ pub fn all() -> Vec<PropDef> {
 
 #[cfg(feature = "full")]
 fn full() -> Vec<PropDef> {
-    vec![c01::DEF, c02::DEF, c03::DEF, c05::DEF, c07::DEF, c08::DEF, c09::DEF, c10::DEF, c11::DEF, c12::DEF, c13::DEF, c14::DEF, c15::DEF, c16::DEF, c17::DEF, c18::DEF, c20::DEF]
+    vec![c01::DEF, c02::DEF, c03::DEF, c05::DEF, c07::DEF, c08::DEF, c09::DEF, c10::DEF, c11::DEF, c12::DEF, c13::DEF, c14::DEF, c15::DEF, c16::DEF, c17::DEF, c18::DEF, c19::DEF, c20::DEF]
 }
